@@ -62,6 +62,7 @@ func witnesses() []wit {
 		semW("F-C03-lt-midwild", "agree", "npm", Range{[]Alt{comps(cm("<", np(1, -1, 2)))}}, sv(1, 0, 0, nil)),
 		semW("F-C03-lt-partial-pre", "agree", "npm", Range{[]Alt{comps(cm(">=", n3p(1, 2, 0, id("a"))), cm("<", np(1, 2)))}}, sv(1, 2, 0, []Ident{id("a")})),
 		semW("F-C03-star-collapse", "agree", "npm", Range{[]Alt{comps(cm("", np(-1))), comps(cm(">", n3(2, 1, 3)), cm("<=", n3p(3, 1, 2, id("a"))))}}, sv(3, 1, 2, []Ident{id("a")})),
+		semW("F-C03-or-merge-pre", "agree", "npm", Range{[]Alt{comps(cm(">=", n3p(1, 0, 0, id("a"))), cm("<=", n3p(2, 0, 0, id("a")))), comps(cm(">=", n3p(2, 0, 0, id("a"))), cm("<", n3p(3, 0, 0, id("a"))))}}, sv(2, 0, 0, []Ident{id("b")})),
 		semW("F-C03-cargo-pre-partial", "agree", "cargo", Range{[]Alt{comps(cm("~", np(3)), cm(">", n3p(3, 1, 2, in(10))))}}, sv(3, 1, 2, []Ident{id("a")})),
 		{"F-C03-ne-pre0", "not-rejected", "pypi", pep.Enc(), pep.Render(), pv(2, 1).Enc(), pv(2, 1).Render()},
 		{"F-C03-mvn-neg", "agree", "maven", mr.Enc(), mr.Render(), mc.Enc(), mc.Render()},
@@ -142,6 +143,10 @@ func TestCorpusLines(t *testing.T) {
 	sem("agree", "cargo", Range{[]Alt{comps(cm("", np(0, 0)))}}, sv(0, 0, 9, nil))
 	sem("agree", "cargo", Range{[]Alt{comps(cm("", n3(0, 0, 3)))}}, sv(0, 0, 4, nil))
 	sem("agree", "cargo", Range{[]Alt{comps(cm(">=", n3p(1, 2, 3, id("a"))), cm("<", n3(2, 0, 0)))}}, sv(1, 2, 3, []Ident{id("b")}))
+	// two alternatives that share a tagged end point excluded on both sides: canon does not merge them
+	sem("agree", "npm", Range{[]Alt{comps(cm("<", n3p(2, 0, 0, id("a")))), comps(cm(">", n3p(2, 0, 0, id("a"))))}}, sv(2, 0, 0, []Ident{id("b")}))
+	// … and with different tags on the outer ends: no merge either (equalPrerelease)
+	sem("agree", "npm", Range{[]Alt{comps(cm(">=", n3(1, 0, 0)), cm("<=", n3p(2, 0, 0, id("a")))), comps(cm(">=", n3p(2, 0, 0, id("a"))), cm("<", n3(3, 0, 0)))}}, sv(2, 0, 0, []Ident{id("b")}))
 	// node accepts a partial upper bound of a hyphen range
 	sem("not-rejected", "npm", Range{[]Alt{{Hyphen: true, Lo: n3(1, 2, 3), Hi: np(2)}}}, sv(2, 9, 9, nil))
 	// PyPI: F7 (`!=2.0,==2.0.0` is empty), `~=`, prefix matching
